@@ -11,6 +11,7 @@ semantics (`docs/spec.md`) as *derived* rules of that judgment.
 -/
 import UH.Proofs.NatSem
 import UH.Proofs.EvalF
+import UH.Proofs.EvalFComplete
 import UH.Proofs.NatSemMemo
 import UH.Model.Main
 namespace UH.NatSemP
@@ -199,6 +200,16 @@ theorem evalF_is_machine (fuel : Nat) (s : Store) (w : World) (c : Comp Res) (br
     ∃ n, (runN n (initState s w c)).status = .done br.res ∧ (runN n (initState s w c)).store = br.store ∧
       (runN n (initState s w c)).world = br.world :=
   evalF_machine fuel s w c br h hh
+
+/-- **completeness of the executable evaluator**: every derivation of the natural semantics is found with enough fuel — `Eval`
+and `evalF` are two presentations of one partial function -/
+theorem evalF_finds_every_derivation {s w task h r s' w'} (hev : Eval s w task h r s' w') :
+    ∃ fuel h', evalF fuel s w task = .ok ⟨r, s', w', h'⟩ ∧ h' ≤ h := evalF_complete hev
+
+/-- **the natural semantics is deterministic** (coroutines and frames, any heights) -/
+theorem bigstep_deterministic {s w task h1 h2 r1 r2 s1 s2 w1 w2}
+    (e1 : Eval s w task h1 r1 s1 w1) (e2 : Eval s w task h2 r2 s2 w2) : r1 = r2 ∧ s1 = s2 ∧ w1 = w2 :=
+  Eval.deterministic e1 e2
 
 def w0 : World := { stdin := [], stdout := [], files := [], dirs := [], handles := #[], registry := [] }
 def sp0 : Span := ⟨0, 0, 0⟩
